@@ -76,7 +76,7 @@ def _place_of(op):
     return op.get("mv") or op.get("cp")
 
 
-def _thread_from(B, site_bb, ret_local, variant, max_steps=16):
+def _thread_from(B, site_bb, ret_local, variant, max_steps=32):
     """`site_bb` ends in a goto and leaves the enum variant / bool `variant` in `ret_local`. Follow the straight-line code
     behind it (moves, `Poll::Ready(..)` wrapping and unwrapping, `?`'s Try::branch, drops) and, if it ends in a switch on
     that very value, give this path its own copy of that code ending in a jump to the arm taken. Tail duplication: every
@@ -100,67 +100,79 @@ def _thread_from(B, site_bb, ret_local, variant, max_steps=16):
             payload.pop(k)
             seeded.discard(("p",) + k)
 
+    def transfer(st, all_seeded=False):
+        if st.get("s") != "assign":
+            return
+        pl = st["pl"]
+        if pl.get("p"):
+            return
+        l = pl["l"]
+        rv = st["rv"]
+        if rv["k"] == "use":
+            q = _place_of(rv["op"])
+            if q is not None and not q.get("p") and q["l"] in facts:
+                v = facts[q["l"]]
+                was = ("f", q["l"]) in seeded
+                pay = {(l,) + k[1:]: (x, ("p",) + k in seeded) for k, x in payload.items() if k[0] == q["l"]}
+                kill(l)
+                facts[l] = v
+                if was:
+                    seeded.add(("f", l))
+                for k2, (x, sd) in pay.items():
+                    payload[k2] = x
+                    if sd:
+                        seeded.add(("p",) + k2)
+            elif q is not None and len(q.get("p", [])) == 2 and isinstance(q["p"][0], dict) and "d" in q["p"][0] and isinstance(q["p"][1], dict) and "f" in q["p"][1] and (q["l"], q["p"][0]["d"], q["p"][1]["f"]) in payload:
+                key_ = (q["l"], q["p"][0]["d"], q["p"][1]["f"])
+                v = payload[key_]
+                was = ("p",) + key_ in seeded
+                kill(l)
+                facts[l] = v
+                if was:
+                    seeded.add(("f", l))
+            elif "c" in rv["op"] and "bool" in rv["op"]["c"]:
+                kill(l)
+                facts[l] = "1" if rv["op"]["c"]["bool"] else "0"
+            else:
+                kill(l)
+        elif rv["k"] == "agg" and rv.get("ak") == "adt" and "vi" in rv:
+            inner = {}
+            for i, op in enumerate(rv["ops"]):
+                q = _place_of(op)
+                if q is not None and not q.get("p") and q["l"] in facts:
+                    inner[(l, rv.get("variant"), i)] = (facts[q["l"]], ("f", q["l"]) in seeded)
+            kill(l)
+            facts[l] = str(rv["vi"])
+            for k2, (x, sd) in inner.items():
+                payload[k2] = x
+                if sd:
+                    seeded.add(("p",) + k2)
+        elif rv["k"] == "discr":
+            q = rv["pl"]
+            was = ("f", q["l"]) in seeded
+            kill(l)
+            if not q.get("p") and q["l"] in facts:
+                dv[l] = facts[q["l"]]
+                if was:
+                    seeded.add(("d", l))
+        else:
+            kill(l)
+
+    # the site block's own statements establish the facts (a `tmp = Ok(x); ret = Some(move tmp)` pair included)
+    for st in B["blocks"][site_bb]["st"]:
+        transfer(st)
+    for l_ in list(facts):
+        seeded.add(("f", l_))
+    for k_ in list(payload):
+        seeded.add(("p",) + k_)
+    facts[ret_local] = variant
+    seeded.add(("f", ret_local))
     for _ in range(max_steps):
         blk = B["blocks"][cur]
         if blk.get("cleanup"):
             return False
         for st in blk["st"]:
-            if st.get("s") != "assign":
-                continue
-            pl = st["pl"]
-            if pl.get("p"):
-                continue
-            l = pl["l"]
-            rv = st["rv"]
-            if rv["k"] == "use":
-                q = _place_of(rv["op"])
-                if q is not None and not q.get("p") and q["l"] in facts:
-                    v = facts[q["l"]]
-                    was = ("f", q["l"]) in seeded
-                    pay = {(l,) + k[1:]: (x, ("p",) + k in seeded) for k, x in payload.items() if k[0] == q["l"]}
-                    kill(l)
-                    facts[l] = v
-                    if was:
-                        seeded.add(("f", l))
-                    for k2, (x, sd) in pay.items():
-                        payload[k2] = x
-                        if sd:
-                            seeded.add(("p",) + k2)
-                elif q is not None and len(q.get("p", [])) == 2 and isinstance(q["p"][0], dict) and "d" in q["p"][0] and isinstance(q["p"][1], dict) and "f" in q["p"][1] and (q["l"], q["p"][0]["d"], q["p"][1]["f"]) in payload:
-                    key_ = (q["l"], q["p"][0]["d"], q["p"][1]["f"])
-                    v = payload[key_]
-                    was = ("p",) + key_ in seeded
-                    kill(l)
-                    facts[l] = v
-                    if was:
-                        seeded.add(("f", l))
-                elif "c" in rv["op"] and "bool" in rv["op"]["c"]:
-                    kill(l)
-                    facts[l] = "1" if rv["op"]["c"]["bool"] else "0"
-                else:
-                    kill(l)
-            elif rv["k"] == "agg" and rv.get("ak") == "adt" and "vi" in rv:
-                inner = {}
-                for i, op in enumerate(rv["ops"]):
-                    q = _place_of(op)
-                    if q is not None and not q.get("p") and q["l"] in facts:
-                        inner[(l, rv.get("variant"), i)] = (facts[q["l"]], ("f", q["l"]) in seeded)
-                kill(l)
-                facts[l] = str(rv["vi"])
-                for k2, (x, sd) in inner.items():
-                    payload[k2] = x
-                    if sd:
-                        seeded.add(("p",) + k2)
-            elif rv["k"] == "discr":
-                q = rv["pl"]
-                was = ("f", q["l"]) in seeded
-                kill(l)
-                if not q.get("p") and q["l"] in facts:
-                    dv[l] = facts[q["l"]]
-                    if was:
-                        seeded.add(("d", l))
-            else:
-                kill(l)
+            transfer(st)
         t = blk["term"]
         if not t:
             return False
@@ -264,6 +276,92 @@ def _thread_returns(B, first, last, ret_bb, ret_local):
         _thread_from(B, bi, ret_local, v)
 
 
+def _single_ref_def(B, l, upto=None):
+    """the place P when local l is defined exactly once in B, as `l = &P` / `l = &mut P` (else None)"""
+    found = None
+    n = 0
+    for blk in B["blocks"][: upto or len(B["blocks"])]:
+        for st in blk["st"]:
+            if st.get("s") == "assign" and st["pl"]["l"] == l and not st["pl"].get("p"):
+                n += 1
+                if st["rv"]["k"] == "ref":
+                    found = st["rv"]["pl"]
+                elif st["rv"]["k"] == "use":
+                    q = _place_of(st["rv"]["op"])
+                    found = ("alias", q) if q is not None and not q.get("p") else None
+                else:
+                    found = None
+        t = blk["term"]
+        if t and t["t"] == "call" and t.get("dest") and t["dest"]["l"] == l:
+            n += 1
+            found = None
+    return found if n == 1 else None
+
+
+def _pointee(B, l, upto, depth=0):
+    """the place `*l` stands for, through `l = &mut x`, moves of references and reborrows `l = &mut *r`"""
+    if depth > 4:
+        return None
+    d = _single_ref_def(B, l, upto)
+    if d is None:
+        return None
+    if isinstance(d, tuple):
+        return _pointee(B, d[1]["l"], upto, depth + 1)
+    pr = d.get("p", [])
+    if pr and pr[0] == "*":
+        base = _pointee(B, d["l"], upto, depth + 1)
+        if base is None:
+            if 1 <= d["l"] <= B.get("argc", 0) and not any(e == "*" for e in pr[1:]):
+                return {"l": d["l"], "p": list(pr)}   # a reborrow of one of the caller's own reference parameters
+            return None
+        return {"l": base["l"], "p": list(base.get("p", [])) + list(pr[1:])}
+    if any(e == "*" for e in pr):
+        return None
+    return {"l": d["l"], "p": list(pr)}
+
+
+def _see_through_refs(B, first, last, param_locals, upto):
+    """inside the blocks first..last-1 (a body that was just spliced in) `(*param).x` is written as the place the reference
+    was taken of at the call site (`&mut state` -> `state.x`), when that is unambiguous and the parameter is never
+    reassigned in the body: the spliced code then reads and writes the caller's variables the way un-extracted code would"""
+    targets = {}
+    for pl in param_locals:
+        tgt = _pointee(B, pl, upto)
+        if tgt is None:
+            continue
+        # the parameter itself must not be written inside the spliced body
+        clean = True
+        for blk in B["blocks"][first:last]:
+            for st in blk["st"]:
+                if st.get("s") == "assign" and st["pl"]["l"] == pl and not st["pl"].get("p"):
+                    clean = False
+            t = blk["term"]
+            if t and t["t"] == "call" and t.get("dest") and t["dest"]["l"] == pl:
+                clean = False
+        if clean:
+            targets[pl] = tgt
+    if not targets:
+        return
+
+    def walk(x):
+        if isinstance(x, dict):
+            if isinstance(x.get("l"), int) and x["l"] in targets and isinstance(x.get("p"), list) and x["p"] and x["p"][0] == "*":
+                tgt = targets[x["l"]]
+                x["l"] = tgt["l"]
+                x["p"] = list(tgt["p"]) + x["p"][1:]
+                if not x["p"]:
+                    x.pop("p")
+            for v in x.values():
+                if isinstance(v, (dict, list)):
+                    walk(v)
+        elif isinstance(x, list):
+            for v in x:
+                if isinstance(v, (dict, list)):
+                    walk(v)
+
+    walk(B["blocks"][first:last])
+
+
 def _inline_sync(B, k, C):
     """replace the call terminating block k of B by the body of C"""
     t = B["blocks"][k]["term"]
@@ -289,6 +387,7 @@ def _inline_sync(B, k, C):
         if j + 1 <= C["argc"]:
             blk["st"].append(_use({"l": loff + 1 + j}, a, sp))
     blk["term"] = {"t": "goto", "to": boff, "sp": sp}
+    _see_through_refs(B, boff, ret_bb, [loff + 1 + j for j in range(min(len(t["args"]), C["argc"]))], boff)
     _thread_returns(B, boff, ret_bb, ret_bb, loff)
 
 
